@@ -163,6 +163,88 @@ def cases():
             yield shape, roles, src, reads, consts
 
 
+# ----------------------------------------------------------------------------------------------------
+# imports: which file's declaration does an imported name bind to?
+
+IMPORT_FORMS = [
+    ("from .conf import LEVEL as v", "v"), ("from ..conf import LEVEL as v", "v"), ("from ...conf import LEVEL as v", "v"),
+    ("from .conf import LEVEL", "LEVEL"), ("from ..conf import LEVEL", "LEVEL"), ("from ...conf import LEVEL", "LEVEL"),
+    ("from top.conf import LEVEL as v", "v"), ("from top.pkg.conf import LEVEL as v", "v"), ("from top.pkg.sub.conf import LEVEL as v", "v"),
+    ("from top.pkg.sub.conf import LEVEL", "LEVEL"), ("from .other import LEVEL as v", "v"), ("from ..other import NAME as v", "v"),
+    ("from .conf import LEVEL as v\nfrom ..conf import LEVEL as w", "w"), ("from ..conf import LEVEL as w\nfrom .conf import LEVEL as v", "v"),
+]
+
+
+def import_project(form):
+    stmt, name = form
+    return {
+        "top/__init__.py": "", "top/conf.py": "LEVEL = 901\n", "top/other.py": "NAME = 904\n",
+        "top/pkg/__init__.py": "", "top/pkg/conf.py": "LEVEL = 902\n", "top/pkg/other.py": "NAME = 905\n",
+        "top/pkg/sub/__init__.py": "", "top/pkg/sub/conf.py": "LEVEL = 903\n", "top/pkg/sub/other.py": "LEVEL = 906\n",
+        "top/pkg/sub/three.py": stmt + f"\nout({name})\n",
+        "main.py": "import top.pkg.sub.three\n",
+    }
+
+
+def cpython_import_value(files):
+    import importlib
+    import os
+    import shutil
+    import tempfile
+    d = tempfile.mkdtemp(prefix="c05i_", dir=common.scratch_root())
+    seen = []
+    try:
+        runner.write_tree(d, files)
+        import builtins
+        saved_path, saved_mods = list(sys.path), set(sys.modules)
+        sys.path.insert(0, d)
+        builtins.out = lambda v: seen.append(str(v))
+        try:
+            importlib.import_module("top.pkg.sub.three")
+        except Exception as e:
+            return None, type(e).__name__
+        finally:
+            del builtins.out
+            sys.path[:] = saved_path
+            for m in set(sys.modules) - saved_mods:
+                del sys.modules[m]
+    finally:
+        shutil.rmtree(d, ignore_errors=True)
+    return (seen[0] if seen else None), None
+
+
+def run_import_case(form):
+    files = import_project(form)
+    truth, err = cpython_import_value(files)
+    r = runner.run_lian(files, "python", "semantic")
+    if r.status != "ok":
+        return {"fatal": f"{r.status}: {r.exc} {(r.traceback or '')[-300:]}", "truth": truth}
+    ld = r.lian.loader
+    units = observe.unit_ids_by_path(r.lian)
+    uid = units.get("top/pkg/sub/three.py")
+    vals, unk = set(), False
+    if uid is not None:
+        for e in ld.get_entry_points() or []:
+            if ld.convert_method_id_to_unit_id(int(e)) != uid:
+                continue
+            sp = ld.get_symbol_state_space_p3(int(e))
+            items = list(sp.space if hasattr(sp, "space") else sp) if sp is not None else []
+            for it in items:
+                if type(it).__name__ == "Symbol" and it.name == form[1]:
+                    try:
+                        if ld.get_stmt_gir(int(it.stmt_id)).operation != "call_stmt":
+                            continue
+                    except Exception:
+                        continue
+                    for si in it.states:
+                        st = items[si]
+                        if type(st).__name__ == "State" and int(st.state_type) == 1 and st.value not in ("", None):
+                            vals.add(str(st.value))
+                        else:
+                            unk = True
+    return {"fatal": None, "truth": truth, "err": err, "values": sorted(vals), "unknown": unk}
+
+
 def run_batch(batch):
     files = {f"p{i}.py": c[2] for i, c in enumerate(batch)}
     import re
@@ -368,6 +450,24 @@ def main():
                                           {"shape": shape, "roles": list(roles), "source": src, "line": line}, size=len(src), text=src)
                 else:
                     stats["ok"] += 1
+    # imports
+    stats["import_cases"] = 0
+    for idx, res in runner.fork_map(run_import_case, IMPORT_FORMS, cpu_limit=300):
+        form = IMPORT_FORMS[idx]
+        stats["import_cases"] += 1
+        ident = form[0].replace("\n", " ; ")
+        if res.get("__status__") or res.get("fatal"):
+            rep.violation("import-run-failed", f"{res.get('fatal') or res.get('__status__')} [{ident}]", {"import": list(form)}, size=idx, ident=ident)
+            continue
+        if res["truth"] is None:
+            continue
+        vals = set(res["values"])
+        if vals - {res["truth"]}:
+            rep.violation("import-bound-to-other-file", f"`{ident}` in top/pkg/sub/three.py: CPython binds the name to the declaration with value {res['truth']}, the "
+                          f"analysis has {sorted(vals)} (901 = top/conf.py, 902 = top/pkg/conf.py, 903 = top/pkg/sub/conf.py, 904-906 = other.py)",
+                          {"import": list(form)}, size=idx, ident=ident)
+        elif not vals and not res["unknown"]:
+            rep.violation("import-unresolved", f"`{ident}`: CPython binds value {res['truth']}, the analysis holds nothing for the name", {"import": list(form)}, size=idx, ident=ident)
     for pre in ("bound-declaration-missing", "bound-to-foreign-declaration", "rename-changes-binding"):
         rep.feature_universe(pre, tested)
     new, known = rep.finish()
@@ -377,7 +477,7 @@ def main():
                 "compiles and contains a read" + (" (quick: trees with >3 scopes only with <=3 active scopes)" if quick else "") +
                 "; distinct by construction; every executed read is one evaluation, every program one rename comparison",
         "samples": samples or [{"shape": "def", "roles": ["A", "R"]}],
-        "exhaustive": True, "reads_agreeing": stats["ok"], "reads_not_executed_by_cpython": stats["unbound_skipped"], "symbol_level_bindings_judged": stats.get("symbol_bindings", 0),
+        "exhaustive": True, "reads_agreeing": stats["ok"], "reads_not_executed_by_cpython": stats["unbound_skipped"], "symbol_level_bindings_judged": stats.get("symbol_bindings", 0), "import_forms_judged": stats.get("import_cases", 0),
     }, t.wall(), new, known=known, assumptions=[
         "binding is observed through values (unique constant per assignment) in the P3 state space of the file's unit initialiser",
         "Python only; imports and JavaScript let/const/var scoping are not generated (stated in DESIGN.md)",
